@@ -37,7 +37,7 @@ CLAIMED = {
  "C06": dict(text="Part of the property, Verus on the real OsIpcReceiverSet::{add, select}: ids are fresh and strictly increasing (no two live members share one); a representation invariant ties the map, the epoll interest list and the owned descriptors; every message/closure a member's non-blocking receive yields is reported exactly once, in order, under the id add returned; every member reported ready is drained until EWOULDBLOCK or closed (what edge-triggered polling needs); a closed member is removed, deregistered and closed exactly once; EINTR never makes select return empty-handed; the expect/unwrap/assert! are total. That epoll eventually reports every ready member, and interleavings with sender threads, are assumed.",
              design="DESIGN.md 3/U5, 4/C06", technique="Verus representation invariant + loop invariants/ensures over a ghost event log on extracted real code",
              note="Trusted: mio Poll/Events/Token stand-ins (epoll batch: <=10 distinct registered readable tokens; edge-triggered), unix::recv stub (contract proved in U3/K4), HashMap specs of vstd with an assumed key model for Token, id counter not exhausted."),
- "C07": dict(text="Verus on the real Router::run with ghost logs: every MessageReceived(id, m) the receiver set reports for a route is passed exactly once, in report order, to the handler registered under id (calls == delivered, as an invariant of both loops); the handler lookup cannot fail; a handler is removed exactly on ChannelClosed(id) and no handler outlives its channel. The receiver set's own behaviour (C06), the crossbeam forwarding closures and cross-thread registration (one mutex) are assumed.",
+ "C07": dict(text="Verus on the real Router::run with ghost logs: every MessageReceived(id, m) the receiver set reports for a route is passed exactly once, in report order, to the handler registered under id (calls == delivered, as an invariant of both loops); the handler lookup cannot fail; a handler is removed exactly on ChannelClosed(id) and no handler outlives its channel. The body of the crossbeam-forwarding closure is verified as a function (each decodable routed message is forwarded exactly once while the receiver lives; dropping the receiver never panics); the proxy sends exactly one message per wake-up (U6b). The receiver set's own behaviour is unit U5; cross-thread registration rests on the one mutex. Open known finding: an undecodable message panics the router thread.",
              design="DESIGN.md 3/U6, 4/C07", technique="Verus loop invariants over ghost delivery/invocation logs on extracted real code",
              note="Trusted: IpcReceiverSet stub (ids are members, none after ChannelClosed, ids never reused), wake-up/RouterMsg pairing, the handler-call stub router_invoke (D5), HashMap specs of vstd."),
  "C17": dict(text="Verus on the real Router::run: '!acked' is an invariant of the service loop (no select, no handler call, no registration after the acknowledgement: call-site obligations), every callback has been dropped when the acknowledgement is sent (ghost count at the ack stub == 0), run leaves no callback behind when it stops by shutdown or proxy drop, and both unwraps / the expect are total. Racing shutdown/add_route callers are argued only from 'one mutex, never taken by run'.",
